@@ -42,9 +42,11 @@ VARIABLES mem,    \* [Tiers -> [f, l, d]]: fill mark, free-list head, dirty_head
           file, fhdr, fidx,   \* the files
           val, valc,          \* ghost: logical content now / at the last closed record
           cnt, cntc,          \* reference counts (RC) now / at the last closed record
+          valf, cntf,         \* ghost: content / counts as of the files (the last enacted record)
+          unsyn,              \* how many records at the tail of `log` are written but not yet synced
           peak,               \* ghost: most slots of a table ever live at once
           hist, tags
-vars == <<mem, cur, idx, w, iw, nops, log, file, fhdr, fidx, val, valc, cnt, cntc, peak, hist, tags>>
+vars == <<mem, cur, idx, w, iw, nops, log, file, fhdr, fidx, val, valc, cnt, cntc, valf, cntf, unsyn, peak, hist, tags>>
 
 ----------------------------------------------------------------------------
 (* planning state threaded through the steps of one operation *)
@@ -152,7 +154,7 @@ Set(k, kind) ==
                Commit([r.S EXCEPT !.idx[k] = [t |-> kind.t, a |-> r.a], !.iw = @ \cup {k}, !.tags = @ \cup {"move"}])
     /\ val' = [val EXCEPT ![k] = kind]
     /\ PeakUp
-    /\ UNCHANGED <<log, file, fhdr, fidx, valc, cntc>>
+    /\ UNCHANGED <<log, file, fhdr, fidx, valc, cntc, valf, cntf, unsyn>>
     /\ Rec("set", k, kind)
 
 Remove(k) ==
@@ -164,7 +166,7 @@ Remove(k) ==
        ELSE /\ Commit([RemovePlan(St, idx[k].t, idx[k].a) EXCEPT !.idx[k] = NoAddr, !.iw = @ \cup {k}, !.tags = @ \cup {"remove"}])
             /\ val' = [val EXCEPT ![k] = NoKind]
     /\ cnt' = IF RC THEN [cnt EXCEPT ![k] = @ - 1] ELSE cnt
-    /\ UNCHANGED <<log, file, fhdr, fidx, valc, cntc, peak>>
+    /\ UNCHANGED <<log, file, fhdr, fidx, valc, cntc, valf, cntf, unsyn, peak>>
     /\ Rec("rem", k, NoKind)
 
 \* DbInner::process_commits end of record: Column::complete_plan logs the header of every table whose fill mark or
@@ -172,12 +174,14 @@ Remove(k) ==
 EndRecord ==
     /\ nops > 0
     /\ LET r == [s |-> [p \in w |-> cur[p[1]][p[2]]], i |-> [k \in iw |-> idx[k]],
-                 h |-> [t \in {u \in Tiers : mem[u].d} |-> [f |-> mem[t].f, l |-> mem[t].l]]] IN
+                 h |-> [t \in {u \in Tiers : mem[u].d} |-> [f |-> mem[t].f, l |-> mem[t].l]],
+                 v |-> val, c |-> cnt] IN       \* (v, c: ghost - the logical content this record leads to)
        log' = Append(log, r)
     /\ mem' = [t \in Tiers |-> [mem[t] EXCEPT !.d = FALSE]]
     /\ w' = {} /\ iw' = {} /\ nops' = 0
     /\ valc' = val /\ cntc' = cnt
-    /\ UNCHANGED <<cur, idx, file, fhdr, fidx, val, cnt, peak, tags>>
+    /\ unsyn' = unsyn + 1
+    /\ UNCHANGED <<cur, idx, file, fhdr, fidx, val, cnt, valf, cntf, peak, tags>>
     /\ Rec("end", 0, NoKind)
 
 Apply(fs, r) ==
@@ -187,27 +191,35 @@ Apply(fs, r) ==
 RECURSIVE ApplyAll(_, _)
 ApplyAll(fs, rs) == IF rs = <<>> THEN fs ELSE ApplyAll(Apply(fs, Head(rs)), Tail(rs))
 
-\* the commit worker enacts the oldest record
+\* the commit worker enacts the oldest record (the flush worker has synced and handed over every written record)
 Enact ==
     /\ log # <<>>
+    /\ unsyn' = 0 /\ valf' = Head(log).v /\ cntf' = Head(log).c
     /\ LET fs == Apply([file |-> file, fhdr |-> fhdr, fidx |-> fidx], Head(log)) IN
        file' = fs.file /\ fhdr' = fs.fhdr /\ fidx' = fs.fidx
     /\ log' = Tail(log)
     /\ UNCHANGED <<mem, cur, idx, w, iw, nops, val, valc, cnt, cntc, peak, tags>>
     /\ Rec("enact", 0, NoKind)
 
-\* process crash + Db::open: every closed record is in a log file and is replayed, the record under construction
-\* is lost; refresh_metadata re-reads fill mark and free-list head from the file headers
-Crash ==
-    /\ LET fs == ApplyAll([file |-> file, fhdr |-> fhdr, fidx |-> fidx], log) IN
+\* crash + Db::open: the closed records are in log files and are replayed - all of them after a process crash, all
+\* but the last j written and not yet synced ones after a power loss; the record under construction is lost;
+\* refresh_metadata re-reads fill mark and free-list head from the file headers
+CrashJ(j) ==
+    /\ j \in 0..unsyn
+    /\ LET kept == SubSeq(log, 1, Len(log) - j)
+           fs == ApplyAll([file |-> file, fhdr |-> fhdr, fidx |-> fidx], kept) IN
+       /\ val' = IF kept = <<>> THEN valf ELSE kept[Len(kept)].v
+       /\ cnt' = IF kept = <<>> THEN cntf ELSE kept[Len(kept)].c
+       /\ valf' = val' /\ cntf' = cnt'
+       /\ tags' = tags \cup {"crash"} \cup (IF kept # <<>> THEN {"crash_replays"} ELSE {}) \cup (IF j > 0 THEN {"crash_loses_unsynced"} ELSE {})
        /\ file' = fs.file /\ fhdr' = fs.fhdr /\ fidx' = fs.fidx
        /\ cur' = fs.file /\ idx' = fs.fidx
        /\ mem' = [t \in Tiers |-> [f |-> IF fs.fhdr[t].f = 0 THEN 1 ELSE fs.fhdr[t].f, l |-> fs.fhdr[t].l, d |-> FALSE]]
-    /\ log' = <<>> /\ w' = {} /\ iw' = {} /\ nops' = 0
-    /\ val' = valc /\ cnt' = cntc
-    /\ tags' = tags \cup {"crash"} \cup (IF log # <<>> THEN {"crash_replays"} ELSE {})
-    /\ UNCHANGED <<valc, cntc, peak>>
-    /\ Rec("crash", 0, NoKind)
+    /\ log' = <<>> /\ w' = {} /\ iw' = {} /\ nops' = 0 /\ unsyn' = 0
+    /\ valc' = val' /\ cntc' = cnt'
+    /\ UNCHANGED <<peak>>
+    /\ Rec("crash", j, NoKind)
+Crash == \E j \in 0..unsyn : CrashJ(j)
 
 Init ==
     /\ mem = [t \in Tiers |-> [f |-> 1, l |-> 0, d |-> FALSE]]
@@ -219,6 +231,7 @@ Init ==
     /\ fidx = [k \in Keys |-> NoAddr]
     /\ val = [k \in Keys |-> NoKind] /\ valc = [k \in Keys |-> NoKind]
     /\ cnt = [k \in Keys |-> 0] /\ cntc = [k \in Keys |-> 0]
+    /\ valf = [k \in Keys |-> NoKind] /\ cntf = [k \in Keys |-> 0] /\ unsyn = 0
     /\ peak = [t \in Tiers |-> 0]
     /\ hist = <<>> /\ tags = {}
 
@@ -230,7 +243,7 @@ Spec == Init /\ [][Next]_vars
 \* exhaustive configs: fill marks stay below the bound (a chain may need up to the longest part count of new slots)
 MaxPart == CHOOSE p \in Parts : \A q \in Parts : q <= p
 Bounded == \A t \in Tiers : mem[t].f + MaxPart <= MaxSlot
-View == <<mem, cur, idx, w, iw, nops, log, file, fhdr, fidx, val, valc, cnt, cntc, peak>>
+View == <<mem, cur, idx, w, iw, nops, log, file, fhdr, fidx, val, valc, cnt, cntc, valf, cntf, unsyn, peak>>
 MaxCnt == 3
 CntBound == \A k \in Keys : cnt[k] <= MaxCnt
 BoundedRC == Bounded /\ CntBound
@@ -278,11 +291,11 @@ TypeOK == /\ \A t \in Tiers : mem[t].f \in 1..(MaxSlot + 1) /\ mem[t].l \in 0..M
 (* generation for the replay *)
 W(p) == RandomElement(1..100) <= p
 Present == {k \in Keys : idx[k].t # 0}
-Stutter(a) == UNCHANGED <<mem, cur, idx, w, iw, nops, log, file, fhdr, fidx, val, valc, cnt, cntc, peak, tags>> /\ Rec(a, 0, NoKind)
+Stutter(a) == UNCHANGED <<mem, cur, idx, w, iw, nops, log, file, fhdr, fidx, val, valc, cnt, cntc, valf, cntf, unsyn, peak, tags>> /\ Rec(a, 0, NoKind)
 GenNext ==
     IF nops > 0 /\ (nops = MaxOps \/ W(55)) THEN EndRecord
     ELSE IF nops = 0 /\ log # <<>> /\ (Len(log) = MaxLog \/ W(30)) THEN Enact
-    ELSE IF nops = 0 /\ W(6) THEN Crash
+    ELSE IF nops = 0 /\ W(7) THEN (\E j \in {RandomElement(0..unsyn)} : CrashJ(j))
     ELSE IF nops = 0 /\ log = <<>> /\ W(10) THEN Stutter("clean")
     ELSE IF Present # {} /\ W(30) THEN Remove(RandomElement(Present))
     ELSE IF RC THEN \E k \in {RandomElement(Keys)} : Set(k, KindOf(k))
